@@ -74,6 +74,8 @@ TYPES = [
      {'h': 1, 'n': {'a': 0}}),
     ('seq-wc-absent', ('CON', ('WC', ('b', 'A')), SC.SEQ_OD), {'a': 1, 'c': False}),
     ('seqof-size', ('CON', ('SZ', 1, 3), ('SEQOF', INT)), [1, 2]),
+    # a DEFAULT component that the type constrains to be ABSENT (it holds its default, so it is not sent)
+    ('seq-wc-default-absent/implicit', ('CON', ('WC', ('c', 'A')), SC.SEQ_OD), {'a': 1, 'c': False}),
     # OPTIONAL containers that are present but empty
     ('seq-opt-empty', ('SEQ', (('h', INT, 'R', None), ('l', ('SEQOF', INT), 'O', None),
                                ('s', ('SET', (('x', INT, 'O', None),)), 'O', None))), {'h': 7, 'l': [], 's': {}}),
@@ -239,7 +241,8 @@ class Scenario(object):
 
     def fresh(self):
         spec = B.to_spec(self.T, cache=False)
-        val = B.build(self.T, self.v, spec)
+        # '/implicit': DEFAULT components equal to their default are left unassigned, as an application would
+        val = B.build(self.T, self.v, spec, explicit_defaults=not self.name.endswith('/implicit'))
         return spec, val
 
     def solo_all(self):
@@ -290,8 +293,7 @@ class Scenario(object):
             tree = B.py_tree(self.T, self.v)
             return outcome(lambda: ber_enc.encode(tree, asn1Spec=spec, defMode=False, maxChunkSize=1)), None
         if call == 'dec-native':
-            py = nat_enc.encode(B.build(self.T, self.v, B.to_spec(self.T, cache=False)))
-            out = outcome(lambda: nat_dec.decode(py, asn1Spec=spec))
+            out = outcome(lambda: nat_dec.decode(nat_enc.encode(B.build(self.T, self.v, B.to_spec(self.T, cache=False))), asn1Spec=spec))
             return out, (out[1] if out[0] == 'ok' else None)
         if call == 'mutate-last':
             if results:
